@@ -31,6 +31,8 @@ func c06cfg6(c *sym.Config) {
 
 var mustC16 = []string{"rows==model", "history-encode-ok", "readback-ok", "encoded==model", "reuse-decode-ok", "reuse-decode==fresh-values", "truncated-rejected"}
 
+func intMode(c *sym.Config) { c.IntMode = true }
+
 var props = map[string]*propDef{
 	"C14": {
 		ID: "C14", Level: "model_checking", Rule: ruleDefault,
@@ -130,6 +132,21 @@ var props = map[string]*propDef{
 			{Name: "proto.VerifC16Composites", Must: mustC16, OnlyTier: "thorough", Thorough: map[string]int{"maxsteps": 3, "minstr": 0, "maxstr": 1, "mininner": 0, "maxinner": 1}},
 			{Name: "proto.VerifC16PlainLeaves", Must: mustC16, Quick: map[string]int{"maxsteps": 3, "minstr": 1, "maxstr": 1, "minprec": 3, "maxprec": 3, "minscale": 3, "maxscale": 3}, Thorough: map[string]int{"maxsteps": 4, "minstr": 0, "maxstr": 1}},
 			{Name: "proto.VerifC16GenLeaves", Must: mustC16, Quick: map[string]int{"maxsteps": 2}, Thorough: map[string]int{"maxsteps": 3}},
+		},
+	},
+	"C20": {
+		ID: "C20", Level: "model_checking", Rule: ruleDefault,
+		Assumptions: append([]string{
+			"package time is interpreted from its SSA for UTC and FixedZone locations; named zones with DST (tzdata) are outside; time.Time.AddDate is an uninterpreted function of (receiver, years, months, days)",
+			"net/netip.AddrFrom4/As4/AddrFrom16/As16 are modelled as the big-endian identity",
+		}, baseAssumptions...),
+		Harnesses: []harnessDef{
+			{Name: "proto.VerifC20Date", Cfg: intMode},
+			{Name: "proto.VerifC20Date32", Cfg: intMode},
+			{Name: "proto.VerifC20DateTime", Cfg: intMode},
+			{Name: "proto.VerifC20DateTime64", Cfg: intMode},
+			{Name: "proto.VerifC20Wide"},
+			{Name: "proto.VerifC20Interval", Cfg: intMode},
 		},
 	},
 }
